@@ -200,7 +200,8 @@ macro_rules! deposit_post {
         prop2!(supply_now() == $p.sh.supply + $shares, [concat!("C05.vault.", $tag, ".supply_plus_shares")], [concat!("C01.vault.", $tag, ".supply_plus_shares")]);
         // ---- event
         let ev = Deposit { operator: $operator.clone(), from: $from.clone(), receiver: $receiver.clone(), assets: $assets, shares: $shares };
-        prop!(model::n_events() == 1 && model::event_is(0, Deposit::EVENT_ID, &ev.event_words()), concat!("C05.vault.", $tag, ".one_exact_deposit_event"));
+        prop2!(model::n_events() == 1 && model::event_is(0, Deposit::EVENT_ID, &ev.event_words()),
+               [concat!("C05.vault.", $tag, ".one_exact_deposit_event")], [concat!("C01.vault.", $tag, ".one_exact_deposit_event")]);
         let _ = $e;
     };
 }
@@ -321,7 +322,8 @@ macro_rules! withdraw_post {
         prop!(model::n_calls() == 1 && call_is(0, &$p.asset, Symbol::of("transfer"), &a), concat!("C05.vault.", $tag, ".one_exact_asset_transfer"));
         // ---- event
         let ev = Withdraw { operator: $operator.clone(), receiver: $receiver.clone(), owner: $owner.clone(), assets: $assets, shares: $shares };
-        prop!(model::n_events() == 1 && model::event_is(0, Withdraw::EVENT_ID, &ev.event_words()), concat!("C05.vault.", $tag, ".one_exact_withdraw_event"));
+        prop2!(model::n_events() == 1 && model::event_is(0, Withdraw::EVENT_ID, &ev.event_words()),
+               [concat!("C05.vault.", $tag, ".one_exact_withdraw_event")], [concat!("C01.vault.", $tag, ".one_exact_withdraw_event")]);
     };
 }
 
